@@ -295,9 +295,9 @@ func (h *Hist) advanceTime(r *mon.Rand) {
 
 // forkSibling builds and commits a sibling of the current head (a block on the head's parent), as happens whenever two
 // generators propose in one round. Only the stateless monitors judge it (the history-level reference models follow the main chain).
-func (h *Hist) forkSibling(r *mon.Rand, ops []OpDef, wts []int, mons []Monitor) {
+func (h *Hist) forkSibling(r *mon.Rand, ops []OpDef, wts []int, mons []Monitor) (sibling *block.Block) {
 	if h.BC != nil || h.Head.PrevBlock == nil || h.Head.PrevBlock.ClientState == nil {
-		return
+		return nil
 	}
 	var stateless []Monitor
 	for _, m := range mons {
@@ -310,7 +310,7 @@ func (h *Hist) forkSibling(r *mon.Rand, ops []OpDef, wts []int, mons []Monitor) 
 	parent := h.Head.PrevBlock
 	cur, err := snapTake(parent)
 	if err != nil {
-		return
+		return nil
 	}
 	h.Head, h.Cur, h.Round = parent, cur, parent.Round
 	h.RefNonce = refNonces(h, cur)
@@ -328,8 +328,12 @@ func (h *Hist) forkSibling(r *mon.Rand, ops []OpDef, wts []int, mons []Monitor) 
 	if r := h.Runs["C07"]; r != nil {
 		r.Count("sibling_blocks", 1)
 	}
+	if h.Head != parent {
+		sibling = h.Head
+	}
 	h.Head, h.Cur, h.RefNonce, h.Round = saveHead, saveCur, saveRef, saveRound
 	_ = saveLog
+	return sibling
 }
 
 func snapTake(b *block.Block) (snap.Snapshot, error) { return snap.Take(b.ClientState) }
